@@ -113,3 +113,93 @@ Example C20_prestack_models_agree :
   let cL := cols_of (4 * 3 * 2) (pre_lop QcR qhalf w Centered G 4 2 2) in
   meqb cL (rearrange 4 3 2 2 cE) = true /\ existsb (existsb (fun a => negb (Qc_eq_bool a 0%Qc))) cL = true.
 Proof. vm_compute. split; reflexivity. Qed.
+
+(* ====================================================================================== *)
+(* Fredholm1 and MDC (Ops/Fredholm.v, Ops/MDCOp.v).  A 3-d array is a list of row-major slices;
+   tdot is the Frobenius pairing (= dot of the C-order flattenings, C20_fredholm_pairing_is_flat_dot). *)
+From PV Require Import Axis DFT DFTEngines Fredholm MDCOp CheckC20b GaussQc GaussField.
+
+(* usematmul=False (loop of np.dot with in-place set) computes the same array as np.matmul: all sizes *)
+Theorem C20_fredholm_forward_paths_equal : forall (S : StarRing) nx nz (G X : list (list (list S))),
+  length X = length G -> fr_fwd_loop S nx nz G X = fr_fwd_matmul S nz G X.
+Proof. exact fr_fwd_paths_equal. Qed.
+Print Assumptions C20_fredholm_forward_paths_equal.
+
+(* the four adjoint paths (saveGt True/False x usematmul True/False) are equal: (x^H G)^H = G^H x *)
+Theorem C20_fredholm_adjoint_paths_equal : forall (S : StarRing) nx ny nz (G Y : list (list (list S))),
+  length Y = length G -> wfT S nx ny G -> wfT S nx nz Y ->
+  fr_adj_saved_loop S ny nz G Y = fr_adj_saved_matmul S ny nz G Y /\
+  fr_adj_fly_matmul S ny nz G Y = fr_adj_saved_matmul S ny nz G Y /\
+  fr_adj_fly_loop S ny nz G Y = fr_adj_saved_matmul S ny nz G Y.
+Proof. exact fr_adj_paths_equal. Qed.
+Print Assumptions C20_fredholm_adjoint_paths_equal.
+
+(* adjoint pair for every kernel and all sizes *)
+Theorem C20_fredholm_adjoint_pair : forall (S : StarRing) nx ny nz (G X Y : list (list (list S))),
+  length X = length G -> length Y = length G -> wfT S nx ny G -> wfT S ny nz X -> wfT S nx nz Y ->
+  tdot S (fr_fwd_matmul S nz G X) Y = tdot S X (fr_adj_saved_matmul S ny nz G Y).
+Proof. exact fredholm_adjoint. Qed.
+Print Assumptions C20_fredholm_adjoint_pair.
+Theorem C20_fredholm_pairing_is_flat_dot : forall (S : StarRing) r c (A B : list (list (list S))),
+  length A = length B -> wfT S r c A -> wfT S r c B -> dot S (flat3 S A) (flat3 S B) = tdot S A B.
+Proof. exact tdot_flat. Qed.
+Print Assumptions C20_fredholm_pairing_is_flat_dot.
+Example C20_fredholm_nonvacuous :
+  let G := [[[gz 1 2; gz 0 (-1)]; [gz 3 0; gz 1 1]; [gz (-2) 1; gz 0 0]]; [[gz 1 0; gz 2 2]; [gz 0 1; gz 1 (-3)]; [gz 4 0; gz 1 1]]] in
+  let Y := [[[gz 1 0]; [gz 0 2]; [gz 1 1]]; [[gz 2 0]; [gz 1 (-1)]; [gz 0 3]]] in
+  wfT GS 3 2 G /\ wfT GS 3 1 Y /\ fr_adj_fly_loop GS 2 1 G Y = fr_adj_saved_matmul GS 2 1 G Y /\
+  fr_adj_saved_matmul GS 2 1 G Y <> [[[g0]; [g0]]; [[g0]; [g0]]].
+Proof. repeat split; try (repeat constructor; fail); try (vm_compute; reflexivity). vm_compute. discriminate. Qed.
+
+(* linearity *)
+Theorem C20_fredholm_linear : forall (S : StarRing) ny nz a (G X X' : list (list (list S))),
+  length X = length X' -> wfT S ny nz X -> wfT S ny nz X' ->
+  fr_fwd_matmul S nz G (tadd S X X') = tadd S (fr_fwd_matmul S nz G X) (fr_fwd_matmul S nz G X') /\
+  fr_fwd_matmul S nz G (tscale S a X) = tscale S a (fr_fwd_matmul S nz G X).
+Proof. intros. split; [apply (fredholm_additive S ny nz); auto | apply fredholm_homogeneous]. Qed.
+Print Assumptions C20_fredholm_linear.
+
+(* the 1-D real FFT pair used by MDC (norm ortho, nfft = nt, ifftshift_before = tw) is an adjoint pair for the
+   real inner product: Re <F x, y> = <x, F^H y> for real x.  No law on the root of unity is needed.
+   (s2*s2 = 2 has no exact instance among the executable rings; it is met in the real numbers — as in C08.) *)
+Theorem C20_mdc_fft_mixed_adjoint : forall (F : FieldS) (w : F) (N : nat) (s2 sq : F),
+  rmul F s2 s2 = radd F (r1 F) (r1 F) -> conj F s2 = s2 -> radd F (r1 F) (r1 F) <> r0 F -> of_nat F N <> r0 F -> conj F sq = sq ->
+  forall tw, MixedAdj F N (N / 2 + 1) (F1d F w N s2 sq tw) (F1dH F w N s2 sq tw).
+Proof. exact rfft1_mixed_adjoint. Qed.
+Print Assumptions C20_mdc_fft_mixed_adjoint.
+
+(* MDC = F1^H . I1^H . Fredholm1 . I . F: the adjoint of the chain is the chain of the adjoints in reverse
+   order, for all sizes, one-/two-sided, every kernel actually given to Fredholm1 (scaled / conjugated) *)
+Theorem C20_mdc_adjoint_pair : forall (F : FieldS) (w : F) (N : nat) (s2 sq : F),
+  rmul F s2 s2 = radd F (r1 F) (r1 F) -> conj F s2 = s2 -> radd F (r1 F) (r1 F) <> r0 F -> of_nat F N <> r0 F -> conj F sq = sq ->
+  forall ns nr nv nfmax tw (Gk : list (list (list F))) x z,
+  wfT F ns nr Gk -> length Gk = nfmax -> nfmax <= N / 2 + 1 ->
+  vconj F x = x -> vconj F z = z -> length x = N * (nr * nv) -> length z = N * (ns * nv) ->
+  dotu F (mdc_fwd F w N s2 sq ns nr nv nfmax tw true Gk x) z = dotu F x (mdc_adj F w N s2 sq ns nr nv nfmax tw true true Gk z).
+Proof. exact mdc_adjoint. Qed.
+Print Assumptions C20_mdc_adjoint_pair.
+
+(* usematmul / saveGt variants of MDC are equal maps (forward and adjoint) *)
+Theorem C20_mdc_variants_equal : forall (F : FieldS) (w : F) (N : nat) (s2 sq : F) ns nr nv nfmax tw um sg (Gk : list (list (list F))) x z,
+  wfT F ns nr Gk -> length Gk = nfmax -> nfmax <= N / 2 + 1 -> length x = N * (nr * nv) -> length z = N * (ns * nv) ->
+  mdc_fwd F w N s2 sq ns nr nv nfmax tw false Gk x = mdc_fwd F w N s2 sq ns nr nv nfmax tw true Gk x /\
+  mdc_adj F w N s2 sq ns nr nv nfmax tw um sg Gk z = mdc_adj F w N s2 sq ns nr nv nfmax tw true true Gk z.
+Proof. intros. split; [apply mdc_fwd_variants; auto | apply mdc_adj_variants; auto]. Qed.
+Print Assumptions C20_mdc_variants_equal.
+
+(* conj=True (Frop.conj() = conj . Frop . conj) is Fredholm1 with the conjugated kernel *)
+Theorem C20_mdc_conj_is_conjugated_kernel : forall (F : FieldS) nv ny (G X : list (list (list F))),
+  wfT F ny nv X -> tconj F (fr_fwd_matmul F nv G (tconj F X)) = fr_fwd_matmul F nv (tconj F G) X.
+Proof. exact fr_conj_kernel. Qed.
+Print Assumptions C20_mdc_conj_is_conjugated_kernel.
+
+(* a computed instance of the adjoint identity (nt = 4: w = -i, 1/sqrt 4 = 1/2 exact; sqrt 2 cancels in the
+   chain, any non-zero value gives the same map), non-trivial values on both sides *)
+Example C20_mdc_instance :
+  let G := [[[gz 1 2; gz 0 (-1)]; [gz 3 0; gz 1 1]]; [[gz 1 0; gz 2 2]; [gz 0 1; gz 1 (-3)]]; [[gz 2 0; gz 0 1]; [gz 1 1]; [gz 0 0]]] in
+  let x := map gre [qz 1; qz 2; qz 0; qz (-1); qz 3; qz 1; qz 2; qz (-2)] in
+  let z := map gre [qz 2; qz 0; qz 1; qz 1; qz (-1); qz 3; qz 0; qz 2] in
+  let fw := mdc_fwd GF (gz 0 (-1)) 4 (gz 3 0) (gsc 549755813888 0) 2 2 1 2 false true (firstn 2 G) in
+  let ad := mdc_adj GF (gz 0 (-1)) 4 (gz 3 0) (gsc 549755813888 0) 2 2 1 2 false false false (firstn 2 G) in
+  dotu GF (fw x) z = dotu GF x (ad z) /\ dotu GF (fw x) z <> g0.
+Proof. vm_compute. split; [reflexivity | discriminate]. Qed.
